@@ -1105,12 +1105,21 @@ func (pool *TxPool) demoteUnexecutables() {
 			log.Trace("Demoting pending transaction", "hash", hash)
 			pool.enqueueTx(hash, tx)
 		}
-		// If there's a gap in front, warn (should never happen) and postpone all transactions
-		if list.Len() > 0 && list.txs.Get(nonce) == nil {
-			for _, tx := range list.Cap(0) {
-				hash := tx.Hash()
-				log.Error("Demoting invalidated transaction", "hash", hash)
-				pool.enqueueTx(hash, tx)
+		// If there's a gap in the run (in front, or further back when a reorg
+		// could re-inject only some of the dropped transactions), postpone
+		// everything behind it: pending must stay a gap-free run from the
+		// account's nonce.
+		if list.Len() > 0 {
+			next := nonce
+			for list.txs.Get(next) != nil {
+				next++
+			}
+			if int(next-nonce) < list.Len() {
+				for _, tx := range list.Cap(int(next - nonce)) {
+					hash := tx.Hash()
+					log.Debug("Demoting transaction behind a nonce gap", "hash", hash)
+					pool.enqueueTx(hash, tx)
+				}
 			}
 		}
 		// Delete the entire queue entry if it became empty.
